@@ -35,8 +35,14 @@ RULES = {
     "rewritten lexically with `os.path.abspath` / `os.path.normpath`: those collapse `link/..` without looking at the file system, so for a "
     "model opened as `work/link/../model.onnx` with `link` a symbolic link to another directory they name `work`, not the directory the "
     "model lives in - every external tensor is then read, and its containment checked, against the wrong directory",
+    "R8": "the base directory reaches the tensors a function declares as attribute defaults: where the loader walks the model-local "
+    "functions to give their tensors the model's directory (`set_base_dir(<function>.graph, …)` in a loop over `<model>.functions`), "
+    "the same loop also visits `<function>.attributes` and sets `base_dir` on the external tensors found there (directly or through a "
+    "helper) - a default value `t = <external tensor at ../secret.bin>` of a function attribute otherwise keeps the empty base "
+    "directory it was deserialized with, for which the containment check is skipped, and reading it returns bytes from outside the "
+    "model's directory",
 }
-FLOORS = {"R1": 6, "R2": 6, "R3": 1, "R4": 5, "R5": 1, "R6": 1, "R7": 1}
+FLOORS = {"R1": 6, "R2": 6, "R3": 1, "R4": 5, "R5": 1, "R6": 1, "R7": 1, "R8": 1}
 EXPLANATION = (
     "Dominator queries on ExternalTensor's methods for every file-system read primitive, a who-may-fill check "
     "on the mmap/array fields, a small abstract interpretation of _check_path_containment over path-string "
@@ -739,7 +745,46 @@ def rule_r7(ctx):
     ctx.require(n >= 1, "no call of set_base_dir found in the I/O module")
 
 
+def rule_r8(ctx):
+    m = ctx.repo.module("onnx_ir._io")
+    n = 0
+    for f in ctx.repo.live(m.all_funcs):
+        if isinstance(f.node, ast.Lambda):
+            continue
+        if not any(isinstance(c, ast.Call) and (dotted_of(c.func) or "").endswith("set_base_dir") for c in own_nodes(f.node)):
+            continue
+        floops = [x for x in own_nodes(f.node) if isinstance(x, ast.For) and isinstance(x.target, ast.Name)
+                  and any(isinstance(y, ast.Attribute) and y.attr == "functions" for y in ast.walk(x.iter))]
+        if not floops and not any(isinstance(y, ast.Attribute) and y.attr == "functions" for y in own_nodes(f.node)):
+            continue
+        n += 1
+        if not floops:
+            ctx.check("R8", f"{f.local}: a loop over the model's functions gives the attribute defaults their base directory", False, f, f.node,
+                      "the loader never walks the model's functions themselves: an external tensor that is the default value of a function attribute keeps base_dir ''",
+                      how="loop over <model>.functions that reads <function>.attributes and assigns base_dir", construct="function attribute defaults keep an empty base directory")
+            continue
+        # one of the loops over the functions takes care of the attribute defaults
+        best = None
+        for lp in floops:
+            fn = lp.target.id
+            reads = [y for y in ast.walk(lp) if isinstance(y, ast.Attribute) and y.attr in ("attributes", "_attributes") and isinstance(y.value, ast.Name) and y.value.id == fn]
+            sets = [a for a in ast.walk(lp) if isinstance(a, ast.Assign) and any(isinstance(t, ast.Attribute) and t.attr == "base_dir" for t in a.targets)]
+            handed = [c for c in ast.walk(lp) if isinstance(c, ast.Call) and not (dotted_of(c.func) or "").endswith("set_base_dir") and any(
+                isinstance(y, ast.Attribute) and y.attr in ("attributes", "_attributes") for a_ in c.args for y in ast.walk(a_))]
+            if reads and (sets or handed):
+                best = lp
+        lp = floops[0]
+        ctx.check("R8", f"{f.local}: a loop over the model's functions gives the attribute defaults their base directory", best is not None, f, lp,
+                  f"the loop `for {lp.target.id} in {norm(lp.iter)[:40]}` sets the base directory on the tensors of the function bodies only: an external tensor that is the default value of a "
+                  "function attribute keeps base_dir '' - the containment check returns early for it, and numpy() / tobytes() / tofile() read `../x`, absolute paths and links "
+                  "leading out of the model's directory",
+                  how="loops over <model>.functions in the loader: one of them reads <function>.attributes and assigns base_dir (or hands the attributes to a helper)",
+                  construct="function attribute defaults keep an empty base directory")
+    ctx.require(n >= 1, "no loop over the model's functions that sets base directories found in the I/O module")
+
+
 def run(ctx):
+    rule_r8(ctx)
     rule_r7(ctx)
     rule_r6(ctx)
     rule_r5(ctx)
